@@ -277,6 +277,30 @@ def free_running(ctx, G, R, base):
 
 
 def replay(ctx, case):
-    """re-run the recorded program text is not possible without the object; rerun the whole check with the same seed"""
-    print("replay: re-running the check with seed", ctx.seed, "- recorded case:", str(case.get("case"))[:400])
-    run(ctx)
+    """re-run exactly the recorded program (rebuilt from its text) on the model and on the implementation"""
+    from props import _evalgen as G
+    from props import _evalrun as R
+    c = case.get("case") or {}
+    sx = c.get("expr")
+    if not sx:
+        print("replay: no program text recorded; running the normal check")
+        return run(ctx)
+    e = G.from_sx(sx)
+    sx2 = G.to_sx(e)
+    if sx2 != sx:
+        ctx.note("replay: rebuilt program prints differently (set order?): " + sx2[:200])
+    rep = ctx.model("C01", ["(eval i%d %s)" % (FUEL, sx2)])[0]
+    print("replay program:", sx2[:500])
+    print("model outcomes:", rep[:500])
+    if c.get("free_running"):
+        real, _ = R.run_free(e, timeout=60)
+        print("implementation (free-running):", G.show(real))
+        outs, has_unk = G.parse_outs(rep)
+        sig = classify(outs, has_unk, real)
+        if sig and sig != "inconclusive":
+            ctx.violation(signature_for(sig, sx2, real), "Scheduler.run differs from the documented reduction rules", case=c,
+                          expected=sorted(map(G.show, outs)), actual=G.show(real))
+        ctx.case(key=sx2)
+        return
+    seeds = [c["schedule_seed"]] if "schedule_seed" in c else [0, 1, 2]
+    check_program(ctx, G, R, c.get("program", "replay"), e, sx2, rep, seeds, {"source": "replay"})
